@@ -2,6 +2,7 @@ package props
 
 import (
 	sdk "github.com/cosmos/cosmos-sdk/types"
+	"github.com/medibloc/panacea-core/v2/app"
 	"verifharness/world"
 )
 
@@ -17,6 +18,11 @@ func reg(c *MachineCfg) *MachineCfg {
 
 var CfgC01 = reg(&MachineCfg{
 	Prop: "C01",
+	Setup: func(g *G, opt *world.Options) {
+		if g.chance("aol-genesis-mode", 22) {
+			opt.AolGenesis = g.genAolGenesis(app.MakeEncodingConfig().Codec)
+		}
+	},
 	Gens: []interface{}{"aol", 62, "commit", 14, "crash", 4, "restart", 4, "export", 5, "bank", 3, "authz", 3, "did", 2, "pnft", 3},
 	Bias: map[string]int{"right-signers": 88, "exec": 6, "multi": 6},
 	Rule: "rapid state machine over signed txs through DeliverTx/Commit/Query: create-topic/add-writer/delete-writer/add-record by listed, delisted and foreign accounts on prefix-colliding topic names, plus crash, restart and genesis export/import; non-trivial = at least one record acknowledged and afterwards at least one of {its writer removed, restart/crash, export/import, second topic}; distinct = distinct sequence of (step kind, message types, outcome class)",
@@ -40,6 +46,11 @@ var CfgC02 = reg(&MachineCfg{
 
 var CfgC13 = reg(&MachineCfg{
 	Prop: "C13",
+	Setup: func(g *G, opt *world.Options) {
+		if g.chance("aol-genesis-mode", 22) {
+			opt.AolGenesis = g.genAolGenesis(app.MakeEncodingConfig().Codec)
+		}
+	},
 	Gens: []interface{}{"aol", 70, "commit", 18, "crash", 3, "export", 4, "bank", 2, "walks", 3},
 	Bias: map[string]int{"right-signers": 94, "exec": 3, "multi": 10, "aol-owners": 2, "aol-create": 4, "aol-delw": 3, "aol-rec": 6},
 	Rule: "AOL machine on prefix-related topic names; after every commit the owner/topic counters (store and query) and complete paging walks (key- and offset-style, limits 0/1/2/3/n±1/huge, forward and reverse, with and without count_total) are compared with the model; non-trivial = an owner with >=3 topics, a writer deleted, and a multi-page walk",
